@@ -185,11 +185,13 @@ def resolvePlugins (p : PluginsOracle) : Except PyErr Unit :=
 def processSchema (p : PluginsOracle) (s : SchemaState) : SchemaState := p.replaces.getD s
 
 /-- graphql-core `assert_valid_schema`: `validate_schema` returns the cached list when there is one -/
+def validationErrorsSeen (s : SchemaState) : Nat :=
+  match s.cache with
+  | some n => n
+  | none => s.trueErrors
+
 def assertValid (s : SchemaState) : Except PyErr Unit :=
-  let errs := match s.cache with
-    | some n => n
-    | none => s.trueErrors
-  if errs == 0 then .ok () else .error (.raw "TypeError")
+  if validationErrorsSeen s == 0 then .ok () else .error (.raw "TypeError")
 
 /-- `get_graphql_queries` -/
 def loadQueries (q : QueriesOracle) : Except PyErr Unit := do
